@@ -4,38 +4,56 @@
    full.  What is proved, on the effect summary that tools/gotrans regenerates from the
    repository's current source on every run (so these theorems are re-checked against what the
    code says now), is the absence of the ingredients of interference:
-     (i)   no function assigns a package-level variable or starts a goroutine;
+     (0)   the translator understood every construct of every function (no method values,
+           reflection, unsafe, cgo, ...: such a function is marked "unknown" and breaks (0));
+           callbacks are called by six named functions only;
+     (i)   no function assigns a package-level variable (directly, through a local alias, or by
+           handing it to a callee that writes its parameter) or starts a goroutine;
      (ii)  everything reachable (through calls that pass on a possibly shared value) from the
            read-only queries of a finished Dawg, resp. from the observers of the four graph
            representations, writes through no value of those types; comb's functions are pure;
-     (iii) channel operations occur in AllMaximalCliques only.
+     (iii) channel operations occur in AllMaximalCliques only, and on every path of its body
+           the channel it was given is closed exactly once, with no send after the close;
+     (iv)  transitively over the call graph, an exported function writes only through its
+           receiver, values it allocated itself, and an explicit list of documented parameters
+           (searcher, scratch buffers, in-place slices, io.Writer/io.Reader, editable graph);
+           the read-only queries the property names (Lookup / Search / observers N, M, IsEdge,
+           Neighbours, Degrees on the four representations / comb / encoders / ...) write
+           through nothing at all, except Search through the searcher it was handed.
    Together with the functional models of the other properties (a result is a function of the
    value operated on) this gives sequential = concurrent *under the Go memory model's
    guarantee for programs without conflicting accesses*, which is assumed, not proved.  The
-   summary itself is produced by the translator (trusted).  The -race scenarios of the harness
-   are exploration.  Hence the names ..._partial. *)
+   summary itself is produced by the translator (trusted: syntactic, flow-insensitive alias
+   tracking through local variables; values stored into a receiver are from then on owned by
+   it).  The -race scenarios of the harness are exploration.  Hence the names ..._partial. *)
 From Coq Require Import List String.
-From Mamba Require Import Gen.Effects Effects.Closure Effects.Instance.
+From Mamba Require Import Gen.Effects Effects.Skel Effects.Closure Effects.Flow Effects.Chan Effects.Instance.
 Import ListNotations.
 Open Scope string_scope.
 
-Theorem C19_no_shared_globals_partial : forall f, In f funcs -> gwrites f = [] /\ gostmts f = 0.
-Proof. exact no_global_writes. Qed.
+Theorem C19_translator_understood_everything_partial :
+  forall f, In f funcs -> unknown f = [] /\ (dyncalls f <> [] -> In (fname f) callback_users).
+Proof. intros f Hf. split; [exact (all_understood f Hf) | exact (callbacks_only_in f Hf)]. Qed.
+Print Assumptions C19_translator_understood_everything_partial.
+
+Theorem C19_no_shared_globals_partial :
+  (forall f, In f funcs -> gwrites f = [] /\ gostmts f = 0) /\
+  (forall f r, MayWrite funcs f r -> is_global_root r = false).
+Proof. split; [exact no_global_writes | exact no_deep_global_writes]. Qed.
 Print Assumptions C19_no_shared_globals_partial.
 
 Theorem C19_dawg_queries_readonly_partial : forall g, Reach funcs scalls dawg_queries g ->
-  exists info, lookup funcs g = Some info /\ no_swrite_of dawg_types info = true.
+  exists info, lookup funcs g = Some info /\ readonly_fn dawg_types info = true.
 Proof. exact dawg_queries_readonly. Qed.
 Print Assumptions C19_dawg_queries_readonly_partial.
 
 Theorem C19_graph_observers_readonly_partial : forall g, Reach funcs scalls graph_observers g ->
-  exists info, lookup funcs g = Some info /\ no_swrite_of graph_types info = true.
+  exists info, lookup funcs g = Some info /\ readonly_fn graph_types info = true.
 Proof. exact graph_observers_readonly. Qed.
 Print Assumptions C19_graph_observers_readonly_partial.
 
 Theorem C19_comb_pure_partial : forall g, Reach funcs calls comb_queries g ->
-  exists info, lookup funcs g = Some info /\
-    match gwrites info, swrites info with [], [] => true | _, _ => false end = true.
+  exists info, lookup funcs g = Some info /\ pure_fn info = true.
 Proof. exact comb_functions_pure. Qed.
 Print Assumptions C19_comb_pure_partial.
 
@@ -43,11 +61,86 @@ Theorem C19_channels_partial : forall f, In f funcs -> chanops f <> 0 -> fname f
 Proof. exact channels_only_in_cliques. Qed.
 Print Assumptions C19_channels_partial.
 
-(* Non-vacuity: the table is non-empty, the closures are non-trivial, and the analysis does see
-   writes where there are some (the builder's commonPrefix writes through a Dawg and is NOT in
-   the query closure). *)
+Theorem C19_channel_closed_once_partial : forall f p dn body, In (f, p, dn, body) chanskels ->
+  f = "graph.AllMaximalCliques" /\
+  forall tr e, Exec body tr e -> e = ENormal \/ e = EReturn ->
+    closes (tr ++ repeat EvClose dn) = 1 /\ no_send_after_close (tr ++ repeat EvClose dn).
+Proof. exact channel_closed_once. Qed.
+Print Assumptions C19_channel_closed_once_partial.
+
+Theorem C19_exported_writes_documented_partial : forall f info r,
+  lookup funcs f = Some info -> fexported info = true -> MayWrite funcs f r ->
+  r = "recv" \/ In (f, r) documented_param_writes.
+Proof. exact exported_writes_documented. Qed.
+Print Assumptions C19_exported_writes_documented_partial.
+
+Theorem C19_queries_write_nothing_shared_partial : forall q allowed r,
+  In (q, allowed) query_spec -> MayWrite funcs q r -> In r allowed /\ r <> "recv".
+Proof.
+  intros q allowed r Hq H. pose proof (queries_write_nothing_shared q allowed r Hq H) as A.
+  split; auto. intros ->. pose proof query_spec_no_recv as B. rewrite forallb_forall in B.
+  specialize (B _ Hq). simpl in B. apply Bool.negb_true_iff in B.
+  apply mem_In in A. rewrite A in B. discriminate.
+Qed.
+Print Assumptions C19_queries_write_nothing_shared_partial.
+
+(* Non-vacuity.  The table is non-empty, the closures are non-trivial, and the analysis does
+   see writes where there are some: the builder's commonPrefix writes through a Dawg and is NOT
+   in the query closure. *)
 Example C19_nonvacuous :
   Nat.ltb 100 (List.length funcs) = true /\ Nat.ltb 3 (List.length graph_closure) = true /\
   mem "dawg.Dawg.commonPrefix" dawg_closure = false /\
   (exists info, lookup funcs "dawg.Dawg.commonPrefix" = Some info /\ no_swrite_of dawg_types info = false).
 Proof. repeat split; try (vm_compute; reflexivity). eexists; split; vm_compute; reflexivity. Qed.
+
+(* the closures contain what the property names: Search reaches the searchers' Step (which
+   writes the searcher, not the Dawg); every observer of every representation is a root *)
+Example C19_nonvacuous_closures :
+  mem "dawg.PatternSearcher.Step" dawg_closure = true /\ mem "dawg.AnagramSearcher.Step" dawg_closure = true /\
+  List.length graph_observers = 20 /\ mem "graph.inducedSubgraph.Degrees" graph_closure = true /\
+  mem "sortints.IntersectionSize" graph_closure = true /\ mem "comb.addHasOverflowed" comb_closure = true.
+Proof. repeat split; vm_compute; reflexivity. Qed.
+
+(* MayWrite is inhabited where it should be: Search writes through the searcher it is handed
+   (its parameter 0) because PatternSearcher.Step writes its receiver; Builder.Add writes its
+   receiver; ints.Sort reaches the in-place writes of insertionSort through quickSort *)
+Example C19_nonvacuous_maywrite :
+  MayWrite funcs "dawg.Dawg.Search" "p0" /\ MayWrite funcs "dawg.Builder.Add" "recv" /\
+  MayWrite funcs "ints.Sort" "p0" /\
+  In ("dawg.Dawg.Search", ["p0"]) query_spec /\ In ("graph.complement.Degrees", []) query_spec /\
+  Nat.ltb 100 (List.length query_spec) = true.
+Proof.
+  split; [|split; [|split; [|split; [|split]]]].
+  - eapply mw_call with (g := "dawg.PatternSearcher.Step") (q := "recv");
+      [vm_compute; reflexivity | vm_compute; tauto |].
+    eapply mw_direct; [vm_compute; reflexivity | vm_compute; tauto].
+  - eapply mw_direct; [vm_compute; reflexivity | vm_compute; tauto].
+  - eapply mw_call with (g := "ints.quickSort") (q := "p0"); [vm_compute; reflexivity | vm_compute; tauto |].
+    eapply mw_call with (g := "ints.insertionSort") (q := "p0"); [vm_compute; reflexivity | vm_compute; tauto |].
+    eapply mw_direct; [vm_compute; reflexivity | vm_compute; tauto].
+  - vm_compute. tauto.
+  - vm_compute. tauto.
+  - vm_compute. reflexivity.
+Qed.
+
+(* the channel theorem speaks about a real skeleton (it sends inside a loop and closes at the
+   end), a simple body of that shape has the path send;close, and the checker rejects bodies
+   that close twice, never, or send after the close *)
+Example C19_nonvacuous_channel :
+  List.length chanskels = 1 /\
+  Exec (CSeq (CLoop (CIf (CSeq CSend CContinue) CSkip)) CClose) ([EvSend] ++ [] ++ [EvClose]) ENormal /\
+  check_once 0 (CSeq (CLoop (CIf (CSeq CSend CContinue) CSkip)) CClose) = true /\
+  check_once 1 (CLoop CSend) = true /\
+  check_once 0 (CLoop CSend) = false /\
+  check_once 0 (CSeq CClose CClose) = false /\
+  check_once 0 (CSeq (CLoop (CIf CClose CSkip)) CClose) = false /\
+  check_once 0 (CSeq CClose CSend) = false /\
+  check_once 0 (CSeq (CIf CReturn CSkip) CClose) = false /\
+  check_once 0 (CSeq CUnknown CClose) = false.
+Proof.
+  split; [vm_compute; reflexivity|]. split; [|repeat split; vm_compute; reflexivity].
+  apply ex_seq.
+  - eapply ex_loop_next with (e1 := EContinue); [| right; reflexivity | apply ex_loop_done].
+    apply ex_if_l. change [EvSend] with ([EvSend] ++ []). apply ex_seq; constructor.
+  - constructor.
+Qed.
